@@ -1,11 +1,12 @@
 (* Per-run obligation (C16): the parts of the skeleton the C16 statements
    rest on -- event handlers are called synchronously on the run goroutine
-   (serial, in arrival order) and every reply type is dispatched on its own
+   (serial, in arrival order), SubscribeChan forwards in place (no goroutine,
+   no non-blocking send), and every reply type is dispatched on its own
    request field. *)
 From Coq Require Import List String Bool.
 From Nexus Require Import Client.ClientSkeleton gen.GenClient.
 
 Theorem skeleton_conforms_c16 :
   (gen_ok && h6_event_handler_serial gen_funcs && h10_reply_dispatch gen_reply_dispatch
-   && h5_run_exits gen_funcs gen_run_exits)%bool = true.
+   && h5_run_exits gen_funcs gen_run_exits && h11_subscribechan_sync gen_funcs)%bool = true.
 Proof. vm_compute. reflexivity. Qed.
